@@ -1305,12 +1305,14 @@ fn adts_to_raw(frame: &[u8]) -> Result<&[u8], AdtsValidationError> {
         | ((frame[4] as usize) << 3)
         | (((frame[5] & 0xE0) as usize) >> 5);
 
-    if aac_frame_length < header_len {
+    // A frame whose declared length only covers the header carries no AAC data; storing
+    // it would create a zero-size sample, which the sample size table cannot represent.
+    if aac_frame_length <= header_len {
         return Err(AdtsValidationError {
             kind: AdtsErrorKind::InvalidFrameLength,
             severity: ErrorSeverity::Error,
             byte_offset: 3,
-            expected: Some(format!("≥{} (header length)", header_len)),
+            expected: Some(format!(">{} (header length)", header_len)),
             found: Some(format!("{} (too small)", aac_frame_length)),
             hex_dump: Some(create_hex_dump(3, 3)),
             suggestion: Some("Frame length is smaller than header. This indicates corrupted frame length field. Check bytes 3-5.".to_string()),
